@@ -153,6 +153,12 @@ def run(ctx):
     u = "MYMODEL"
     expect_model(f"1.0 K+ pi- {u} 0.5;", u, False, [0.5], ["K+", "pi-"], extra=[u], label="alias-spelled-like-model", nontrivial=True,
                  prefix=f"ModelAlias {u} HELAMP 1.0 0.0;\n")
+    # a ModelAlias label defined in ANOTHER text, parsed earlier in this process by another parser, is not defined here: the word
+    # is neither a model name nor an alias of this text, and the line is refused
+    for lab in ["MyFormFactor", "FF_1", "SLBKPOLE_DtoKlnu"] + (["AliasQ", "M2"] if tier == "thorough" else []):
+        expect_model(f"1.0 K+ pi- {lab};", "HELAMP", False, [1.0, 0.0], ["K+", "pi-"], label="alias-defined-here", prefix=f"ModelAlias {lab} HELAMP 1.0 0.0;\n")
+        expect_reject(f"1.0 K+ pi- {lab};", label="alias-defined-elsewhere")
+        expect_reject(f"1.0 K+ pi- PHOTOS {lab};", label="alias-defined-elsewhere")
     # user-registered names
     alphabet = "ABCXYZabc019_-"
     n_user = 80 if tier == "quick" else 1200
